@@ -13,7 +13,10 @@ package main
 
 import (
 	"fmt"
+	"os"
+	"runtime"
 	"strings"
+	"time"
 
 	"onetverif/harness/h"
 )
@@ -136,4 +139,20 @@ func c03causal(cs *h.Case) {
 		}
 		prev, have = dels, true
 	}
+}
+
+// c03hangDump: development aid (opt-in, environment variable C03_HANGDUMP=<directory>): a case that is
+// still running after 30 s writes the stacks of all its goroutines there before the framework's
+// time-out kills it.
+func c03hangDump(cs *h.Case) func() {
+	dir := os.Getenv("C03_HANGDUMP")
+	if dir == "" {
+		return func() {}
+	}
+	t := time.AfterFunc(30*time.Second, func() {
+		buf := make([]byte, 1<<20)
+		n := runtime.Stack(buf, true)
+		os.WriteFile(fmt.Sprintf("%s/c03-hang-%d.txt", dir, os.Getpid()), append([]byte(cs.Class+"\n"+strings.Join(cs.Ops, "\n")+"\n\n"), buf[:n]...), 0644)
+	})
+	return func() { t.Stop() }
 }
